@@ -223,3 +223,182 @@ Example C03_schedule_instance :
   (exists n f, run n (red_start 13 7) f /\ final f /\ pr f 7 = Ret (sym_reduce_result 13) /\ (forall a b t, ch f a b t = [])) /\
   sym_eval (fun s r : list Z => r ++ s) (fun i => [i]) 5 (sym_reduce_result 13) = Some ([0; 1; 2; 3; 4; 5; 6; 7; 8; 9; 10; 11; 12], []).
 Proof. split; [apply reduce_one_schedule; split; discriminate || reflexivity | vm_compute; reflexivity]. Qed.
+
+(* ===== tie T1: the per-rank model computes what the definitions GENERATED from /repo/src/sc_reduce.c compute =============== *)
+(* Gen/ReduceC03.v is regenerated from the working tree on every run (tools/c2g/groups_C03.py); an edit of the arithmetic in
+   sc_reduce.c changes a generated definition and the statements below stop checking.  B30 = 2^30. *)
+From ScV Require Import Gen.Search Gen.ReduceC03 C03.ReduceGen.
+Local Open Scope Z_scope.
+
+
+(* target = -1 means allreduce: doall is set and the tree of target 0 is used (recursive and all-to-all part) *)
+Theorem C03_gen_target : forall t, rec_target t = (t, b2z (t =? -1), if t =? -1 then 0 else t) /\ a2a_target t = (b2z (t =? -1), if t =? -1 then 0 else t).
+Proof. exact gen_target. Qed.
+Print Assumptions C03_gen_target.
+
+(* myrank, peer = bias (.., branch xor 1, ..), higher = bias (.., level - 1, branch / 2, ..) through the generated sc_search_bias; arguments of the recursive and of the all-to-all call *)
+Theorem C03_gen_rec_values : forall m level branch target P orig, 0 <= level <= B30 -> 0 <= branch <= B30 ->
+  rec_myrank m level branch target = sc_search_bias m level branch target /\
+  rec_peer_higher m level branch target =
+    (sc_search_bias m level (Z.lxor branch 1) target, sc_search_bias m (level - 1) (branch / 2) target) /\
+  rec_recurse P orig m level branch = (P, orig, m, level - 1, branch / 2) /\
+  rec_a2a_args P orig m level branch = (P, orig, m, level, branch).
+Proof. exact gen_rec_values. Qed.
+Print Assumptions C03_gen_rec_values.
+
+(* the tests of sc_reduce_recursive: level == 0, level <= SC_REDUCE_ALLTOALL_LEVEL, myrank == higher, peer < groupsize, myrank < peer, doall && peer < groupsize *)
+Theorem C03_gen_rec_tests : forall level myrank higher peer P (doall : bool), rec_is_leaf level = (level =? 0) /\ rec_is_a2a level = (level <=? c_SC_REDUCE_ALLTOALL_LEVEL) /\
+  rec_is_higher myrank higher = (myrank =? higher) /\ rec_peer_exists1 peer P = (peer <? P) /\ rec_peer_exists2 peer P = (peer <? P) /\
+  rec_lower_rank myrank peer = (myrank <? peer) /\ rec_send_back (b2z doall) peer P = (doall && (peer <? P)).
+Proof. exact gen_rec_tests. Qed.
+Print Assumptions C03_gen_rec_tests.
+
+(* all four Recv / Send calls of the recursion use `peer` and SC_TAG_REDUCE *)
+Theorem C03_gen_rec_msgs : forall peer tag, (rec_msg1_peer peer tag, rec_msg1_tag peer tag) = (peer, tag) /\ (rec_msg2_peer peer tag, rec_msg2_tag peer tag) = (peer, tag) /\
+  (rec_msg3_peer peer tag, rec_msg3_tag peer tag) = (peer, tag) /\ (rec_msg4_peer peer tag, rec_msg4_tag peer tag) = (peer, tag).
+Proof. exact gen_rec_msgs. Qed.
+Print Assumptions C03_gen_rec_msgs.
+
+(* operand order of reduce_fn: the lower rank's data is the receive buffer; otherwise the result is copied back *)
+Theorem C03_gen_rec_combine : forall myrank peer data peerdata sz, rec_combine myrank peer data peerdata sz =
+  if myrank <? peer then (1, peerdata, data, 0, 0, 0, 0, 0, 0, 0) else (0, 0, 0, 1, data, peerdata, 1, data, peerdata, sz).
+Proof. exact gen_rec_combine. Qed.
+Print Assumptions C03_gen_rec_combine.
+
+(* one level of the model's rec_prog written with the generated definitions *)
+Theorem C03_gen_rec_prog_step : forall P m (doall : bool) target fu level branch data k, 0 <= level <= B30 -> 0 <= branch <= B30 ->
+  rec_prog P m doall target (S fu) level branch data k =
+  let myrank := rec_myrank m level branch target in
+  if rec_is_leaf level then k data
+  else if rec_is_a2a level then a2a_prog P m doall target level branch data k
+  else
+    let '(peer, higher) := rec_peer_higher m level branch target in
+    let '(_, _, _, level', branch') := rec_recurse P target m level branch in
+    let tag := c_SC_TAG_REDUCE in
+    if rec_is_higher myrank higher then
+      let cont (d : payload) :=
+        rec_prog P m doall target fu level' branch' d (fun d' =>
+          if rec_send_back (b2z doall) peer P then send (rec_msg2_peer peer tag) (rec_msg2_tag peer tag) d' (k d') else k d') in
+      if rec_peer_exists1 peer P
+      then recv (rec_msg1_peer peer tag) (rec_msg1_tag peer tag) (fun v => cont (if rec_lower_rank myrank peer then sym_f v data else sym_f data v))
+      else cont data
+    else
+      if rec_peer_exists2 peer P
+      then send (rec_msg3_peer peer tag) (rec_msg3_tag peer tag) data
+                (if doall then recv (rec_msg4_peer peer tag) (rec_msg4_tag peer tag) (fun v => k v) else k data)
+      else k data.
+Proof. exact gen_rec_prog_step. Qed.
+Print Assumptions C03_gen_rec_prog_step.
+
+(* all-to-all part: myrank, allcount = 1 << level = 2^level, peer of slot i, peer2 = bias (.., l + 1, 2 i + 1, ..), loop bounds *)
+Theorem C03_gen_a2a_values : forall m level branch target i l, 0 <= level <= 30 -> 0 <= l <= 30 -> 0 <= i <= B30 / 4 ->
+  a2a_myrank m level branch target = sc_search_bias m level branch target /\
+  a2a_allcount level = 2 ^ level /\
+  ReduceC03.a2a_peer m level i target = sc_search_bias m level i target /\
+  a2a_peer2 m l i target = sc_search_bias m (l + 1) (2 * i + 1) target /\
+  a2a_inner_cond i l = (i <? 2 ^ l) /\ a2a_outer_cond l = (0 <=? l) /\
+  a2a_outer_init level = (0, level - 1) /\ a2a_outer_next l l = (l + 1, l - 1).
+Proof. exact gen_a2a_values. Qed.
+Print Assumptions C03_gen_a2a_values.
+
+(* the tests of sc_reduce_alltoall *)
+Theorem C03_gen_a2a_tests : forall (doall : bool) target myrank peer peer2 P, a2a_collects (b2z doall) target myrank = (doall || (target =? myrank)) /\ a2a_is_self peer myrank = (peer =? myrank) /\
+  a2a_peer_exists peer P = (peer <? P) /\ a2a_sends_too (b2z doall) = doall /\ a2a_waits_sends (b2z doall) = doall /\
+  a2a_peer2_exists peer2 P = (peer2 <? P).
+Proof. exact gen_a2a_tests. Qed.
+Print Assumptions C03_gen_a2a_tests.
+
+(* peers and tag of its Irecv / Isend / Send calls *)
+Theorem C03_gen_a2a_msgs : forall peer target tag, (a2a_recv_peer peer target tag, a2a_recv_tag peer target tag) = (peer, tag) /\
+  (a2a_send_peer peer target tag, a2a_send_tag peer target tag) = (peer, tag) /\
+  (a2a_send_target_peer peer target tag, a2a_send_target_tag peer target tag) = (target, tag).
+Proof. exact gen_a2a_msgs. Qed.
+Print Assumptions C03_gen_a2a_msgs.
+
+(* slot i at byte offset i * datasize; reduce_fn (slot (2 i + 1) << shift, slot (2 i) << shift); buffer sizes *)
+Theorem C03_gen_a2a_offsets : forall i shift sz allcount request, 0 <= i -> 0 <= shift <= 30 -> (2 * i + 1) * 2 ^ shift <= B30 -> 0 <= sz -> (2 * i + 1) * 2 ^ shift * sz < 2 ^ 62 ->
+  0 <= allcount <= B30 -> allcount * sz < 2 ^ 62 ->
+  a2a_recv_offset i sz = i * sz /\ a2a_self_offset i sz = i * sz /\
+  a2a_combine_send_offset i shift sz = ((2 * i + 1) * 2 ^ shift) * sz /\ a2a_combine_recv_offset i shift sz = ((2 * i) * 2 ^ shift) * sz /\
+  a2a_alldata_bytes allcount sz = allcount * sz /\ a2a_requests request allcount = (request, request + allcount).
+Proof. exact gen_a2a_offsets. Qed.
+Print Assumptions C03_gen_a2a_offsets.
+
+(* one step of the model's posting loop written with the generated definitions *)
+Theorem C03_gen_a2a_post_step : forall P m (doall : bool) target i rest level myrank data sl k, 0 <= level <= 30 -> 0 <= i <= B30 / 4 ->
+  a2a_post P m doall target (i :: rest) level myrank data sl k =
+  let peer := ReduceC03.a2a_peer m level i target in
+  let tag := c_SC_TAG_REDUCE in
+  if a2a_is_self peer myrank then a2a_post P m doall target rest level myrank data (supd sl i data) k
+  else if a2a_peer_exists peer P then
+    recv (a2a_recv_peer peer target tag) (a2a_recv_tag peer target tag) (fun v =>
+      if a2a_sends_too (b2z doall) then send (a2a_send_peer peer target tag) (a2a_send_tag peer target tag) data
+                                            (a2a_post P m doall target rest level myrank data (supd sl i v) k)
+      else a2a_post P m doall target rest level myrank data (supd sl i v) k)
+  else a2a_post P m doall target rest level myrank data sl k.
+Proof. exact gen_a2a_post_step. Qed.
+Print Assumptions C03_gen_a2a_post_step.
+
+(* one step of the model's combination loop written with the generated peer2 and its test *)
+Theorem C03_gen_a2a_inner_step : forall P m target i rest l shift sl, 0 <= l <= 30 -> 0 <= i <= B30 / 4 ->
+  a2a_inner P m target (i :: rest) l shift sl =
+  let peer2 := a2a_peer2 m l i target in
+  let sl' := if a2a_peer2_exists peer2 P
+             then supd sl ((2 * i) * 2 ^ shift) (sym_f (sl ((2 * i + 1) * 2 ^ shift)) (sl ((2 * i) * 2 ^ shift)))
+             else sl in
+  a2a_inner P m target rest l shift sl'.
+Proof. exact gen_a2a_inner_step. Qed.
+Print Assumptions C03_gen_a2a_inner_step.
+
+(* the model's a2a_prog written with the generated myrank, collect test, allcount and loop start *)
+Theorem C03_gen_a2a_prog : forall P m (doall : bool) target level branch data k, 0 <= level <= 30 ->
+  a2a_prog P m doall target level branch data k =
+  let myrank := a2a_myrank m level branch target in
+  if a2a_collects (b2z doall) target myrank then
+    a2a_post P m doall target (map Z.of_nat (seq 0 (Z.to_nat (a2a_allcount level)))) level myrank data (fun _ => []) (fun sl =>
+      k (a2a_outer P m target (Z.to_nat level) (snd (a2a_outer_init level)) (fst (a2a_outer_init level)) sl 0))
+  else send (a2a_send_target_peer 0 target c_SC_TAG_REDUCE) (a2a_send_target_tag 0 target c_SC_TAG_REDUCE) data (k data).
+Proof. exact gen_a2a_prog. Qed.
+Print Assumptions C03_gen_a2a_prog.
+
+(* maxlevel = SC_LOG2_32 (mpisize - 1) + 1 as sc_reduce_custom_dispatch computes it = the model's maxlevel; start of the recursion *)
+Theorem C03_gen_dispatch : forall P t r, 2 <= P <= B30 ->
+  dispatch_maxlevel P = maxlevel P /\ dispatch_args P t (maxlevel P) r = (P, t, maxlevel P, maxlevel P, r).
+Proof. exact gen_dispatch. Qed.
+Print Assumptions C03_gen_dispatch.
+
+(* the if chains of sc_reduce_max / _min / _sum send every datatype to a loop over the element type dt_spec lists (bytes, signedness, floating) *)
+Theorem C03_gen_kernel_tables : reduce_max_types = dt_spec /\ reduce_min_types = dt_spec /\ reduce_sum_types = dt_spec.
+Proof. exact gen_kernel_tables. Qed.
+Print Assumptions C03_gen_kernel_tables.
+
+(* element operation of the eight integer branches of sc_reduce_max *)
+Theorem C03_gen_kernel_max : forall s r i, let f := if r i <? s i then s i else r i in
+  reduce_max_char s r i = f /\ reduce_max_short s r i = f /\ reduce_max_ushort s r i = f /\ reduce_max_int s r i = f /\
+  reduce_max_unsigned s r i = f /\ reduce_max_long s r i = f /\ reduce_max_ulong s r i = f /\ reduce_max_longlong s r i = f.
+Proof. exact gen_kernel_max. Qed.
+Print Assumptions C03_gen_kernel_max.
+
+(* ... of sc_reduce_min *)
+Theorem C03_gen_kernel_min : forall s r i, let f := if s i <? r i then s i else r i in
+  reduce_min_char s r i = f /\ reduce_min_short s r i = f /\ reduce_min_ushort s r i = f /\ reduce_min_int s r i = f /\
+  reduce_min_unsigned s r i = f /\ reduce_min_long s r i = f /\ reduce_min_ulong s r i = f /\ reduce_min_longlong s r i = f.
+Proof. exact gen_kernel_min. Qed.
+Print Assumptions C03_gen_kernel_min.
+
+(* ... of sc_reduce_sum (char, short, unsigned short: promoted to int, wrapped to the element type) *)
+Theorem C03_gen_kernel_sum : forall r s i, - 65536 <= r i < 65536 -> - 65536 <= s i < 65536 ->
+  reduce_sum_char r s i = s8 (r i + s i) /\ reduce_sum_short r s i = s16 (r i + s i) /\ reduce_sum_ushort r s i = u16 (r i + s i).
+Proof. exact gen_kernel_sum. Qed.
+Print Assumptions C03_gen_kernel_sum.
+
+(* ... of sc_reduce_sum (int .. long long): the wrapped sum, for ALL values *)
+Theorem C03_gen_kernel_sum_wide : forall r s i, reduce_sum_int r s i = s32 (r i + s i) /\ reduce_sum_unsigned r s i = u32 (r i + s i) /\ reduce_sum_long r s i = s64 (r i + s i) /\
+  reduce_sum_ulong r s i = u64 (r i + s i) /\ reduce_sum_longlong r s i = s64 (r i + s i).
+Proof. exact gen_kernel_sum_wide. Qed.
+Print Assumptions C03_gen_kernel_sum_wide.
+
+(* datasize = count * sizeof (datatype) *)
+Theorem C03_gen_datasize : forall count ts, 0 <= count < 2 ^ 31 -> 0 <= ts < 2 ^ 31 -> rec_datasize count ts = count * ts.
+Proof. exact gen_datasize. Qed.
+Print Assumptions C03_gen_datasize.
